@@ -244,10 +244,15 @@ def install_watchdog(limit_s):
     import threading
     import soupsieve as sv
     from soupsieve import css_match as cm
-    state = {'depth': 0}
+    state = {'depth': 0, 'hangs': 0, 'limit': limit_s}
 
     def handler(signum, frame):
-        raise LibraryDidNotTerminate(f'the call has not returned after {limit_s} s')
+        # once one call has failed to return the run is a violation anyway: later calls get a shorter limit, so that a sweep
+        # that meets the same non-terminating code on many inputs still finishes (the first one always gets the full limit)
+        state['hangs'] += 1
+        was = state['limit']
+        state['limit'] = max(5.0, limit_s / 12.0)
+        raise LibraryDidNotTerminate(f'the call has not returned after {was:g} s')
 
     def guard(fn):
         @functools.wraps(fn)
@@ -256,7 +261,7 @@ def install_watchdog(limit_s):
                 return fn(*a, **k)
             state['depth'] += 1
             old = signal.signal(signal.SIGALRM, handler)
-            signal.setitimer(signal.ITIMER_REAL, limit_s)
+            signal.setitimer(signal.ITIMER_REAL, state['limit'])
             try:
                 r = fn(*a, **k)
                 if hasattr(r, '__next__') and not isinstance(r, (list, tuple)):
@@ -461,10 +466,11 @@ MODULES = {
     'C07': ['C07', 'C07Parse'],
     'C09': ['C09', 'C09Rx', 'C09Compile', 'C09Compile2'],
     'C10': ['C10', 'C10Rx', 'C10Parse'],
+    'C11': ['C11', 'C11Parse'],
     'C12': ['C12', 'C12Parse'],
     'C13': ['C13', 'C13Rx', 'C13Parse'],
     'C17': ['C17', 'C17Dir', 'C17Parse'],
-    'C18': ['C18', 'C18Range', 'C18Rx'],
+    'C18': ['C18', 'C18Range', 'C18Rx', 'C18Parse'],
     'C19': ['C19', 'C19Rx', 'C19Parse'],
     'C20': ['C20', 'C20Rx', 'C20Parse'],
 }
@@ -476,10 +482,11 @@ AUDITS = {
     'C07': ['C07', 'C07Parse'],
     'C09': ['C09', 'C09Rx', 'C09Compile', 'C09Compile2'],
     'C10': ['C10', 'C10Rx', 'C10Parse'],
+    'C11': ['C11', 'C11Parse'],
     'C12': ['C12', 'C12Parse'],
     'C13': ['C13', 'C13Rx', 'C13Parse'],
     'C17': ['C17', 'C17Dir', 'C17Parse'],
-    'C18': ['C18', 'C18Range', 'C18Rx'],
+    'C18': ['C18', 'C18Range', 'C18Rx', 'C18Parse'],
     'C19': ['C19', 'C19Rx', 'C19Parse'],
     'C20': ['C20', 'C20Rx', 'C20Parse'],
 }
